@@ -92,8 +92,14 @@ def buildOther (cap rot : Nat) (vals : List Nat) : M CB := do
 /-- write `val + 1000` through a mutable reference to slot `i` -/
 def bump (i : Nat) : M Unit := do
   let b ← getBuf
+  let s ← getSys
   match b.items i with
-  | some e => setItems (setCell b.items i (some { e with val := e.val + 1000 }))
+  | some e =>
+    let v := match s.kind with
+      | .tracked => e.val + 1000
+      | .byte => (e.val + 1000) % 256
+      | .zst => e.val
+    setItems (setCell b.items i (some { e with val := v }))
   | none => pure ()
 
 def bumpAll : List Nat → M Unit
